@@ -45,6 +45,8 @@ def _imports():
             self.kick = 0.0
 
         def calculate(self, system):
+            if self.kick is None:              # walk mode: the kick does not move the order parameter
+                return [float(system.order[0])]
             return [float(self.kick)]
 
     class ScriptedEngine(EngineBase):
@@ -57,6 +59,7 @@ def _imports():
             self.back, self.forw, self.dek = [], [], 0.0
             self.used = {True: 0, False: 0}
             self.kicks = 0
+            self.walk = None
 
         def script(self, back, forw, kick, dek=0.0):
             self.back, self.forw, self.dek = list(back), list(forw), dek
@@ -86,7 +89,16 @@ def _imports():
             left, _, right = ens_set["interfaces"]
             traj_file = os.path.join(self.exe_dir, name + ".xyz")
             success, status = False, "nothing played"
-            for k, op in enumerate([system.order[0]] + (self.back if reverse else self.forw)):
+            if self.walk is not None:          # free-running lattice walk (wire-fencing predicate runs)
+                rng, steps = self.walk
+                x = system.order[0]
+                seq = []
+                for _ in range((path.maxlen or 0) + 2):
+                    x = x + rng.choice(steps)
+                    seq.append(x)
+            else:
+                seq = self.back if reverse else self.forw
+            for k, op in enumerate([system.order[0]] + seq):
                 snapshot = {"order": [float(op)], "config": (traj_file, k), "vel_rev": reverse}
                 pp = self.snapshot_to_system(system, snapshot)
                 self.used[reverse] += 1
@@ -606,6 +618,161 @@ def gen_cases(ctx):
     return cases
 
 
+# --------------------------------------------------------------------------- wire fencing (predicates only)
+class RngGen:
+    """ens_set['rgen'] backed by the harness PRNG (wire-fencing runs are not scripted, only judged)"""
+
+    def __init__(self, rng):
+        self.rng, self.log = rng, []
+
+    def integers(self, lo, hi):
+        self.log.append(("int", lo, hi))
+        if lo >= hi:
+            raise ValueError("low >= high")
+        return self.rng.randrange(lo, hi)
+
+    def random(self):
+        self.log.append(("random",))
+        return self.rng.random()
+
+
+def frames_only(snap):
+    return snap[0], snap[1]
+
+
+def wf_block(ctx):
+    """real wire_fencing with a free-running lattice engine: membership of accepted paths and
+    untouched old frames/files on rejection, stated directly (there is no Lean model of this move)"""
+    E = _imports()
+    tis, eng, rng = E["tis"], E["engine"], ctx.rng
+    n = 1500 if ctx.quick else 20000
+    eng.order_function.kick = None
+    attr_changed = 0
+    try:
+        for it in range(n):
+            l, m = 0, rng.randint(0, 3)
+            r = m + rng.randint(1, 5)
+            cap = rng.choice((None, None, rng.randint(m + 1, r)))
+            ML = rng.choice((200, 200, rng.randint(6, 40)))
+            sc = rng.choice(("L", "L", "L", "R", "LR"))
+            # an old path of the ensemble: from below l (or above r) through [l, r], reaching m
+            for _try in range(50):
+                x = l - 1 if (sc != "R" or rng.random() < 0.3) else r + 1
+                ops = [x]
+                x = l if x < l else r
+                while l <= x <= r and len(ops) < 60:
+                    ops.append(x)
+                    x += rng.choice((-1, 0, 1, 1) if len(ops) < 6 else (-1, -1, 0, 1))
+                ops.append(x)
+                if not (l <= x <= r) and max(ops) >= m and len(ops) < ML:
+                    break
+            else:
+                continue
+            case = {"old": ops, "oto": rng.randint(-5, 5), "ld": rng.random() < 0.2, "wf": True, "intf": [l, m, r], "cap": cap,
+                    "ML": ML, "sc": sc, "n_jumps": rng.choice((1, 2, 3)), "seed": rng.randrange(1 << 30)}
+            res = run_real_wf(case)
+            ctx.count(1, branch="wf:" + str(res["status"]))
+            bad = wf_judge(case, res)
+            if res.get("attr_changed"):
+                attr_changed += 1
+            for sig, what in bad:
+                ctx.fail(sig, what, {"wfcase": case, "code": res["line"]})
+            if res["status"] == "ACC":
+                ctx.distinct(("wf", repr(sorted(case.items()))))
+            if it % 577 == 3:
+                ctx.sample({"wfcase": case, "code": res["line"]})
+    finally:
+        eng.walk = None
+        eng.order_function.kick = 0.0
+    ctx.hit("wf:rejected-move-rewrote-old-path-status/generated (frames intact)", attr_changed)
+
+
+def run_real_wf(case):
+    import random as _random
+    E = _imports()
+    tis, eng = E["tis"], E["engine"]
+    E["enginebase"].counter.count = -1
+    rr = _random.Random(case["seed"])
+    eng.walk = (rr, (-1, -1, 0, 1, 1, 2))
+    eng.order_function.kick = None
+    old = mk_old(case)
+    l, m, r = case["intf"]
+    tis_set = {"maxlength": case["ML"], "n_jumps": case["n_jumps"]}
+    if case["cap"] is not None:
+        tis_set["interface_cap"] = float(case["cap"])
+    ens = {"interfaces": (float(l), float(m), float(r)), "tis_set": tis_set, "rgen": RngGen(rr), "ens_name": "002",
+           "mc_move": "wf", "start_cond": sc_tuple(case["sc"])}
+    before = snapshot(old)
+    with open(E["oldfile"], "rb") as f:
+        bytes_before = f.read()
+    _AUDIT.update(on=True, events=[], watch=E["oldfile"])
+    res = {"status": None}
+    try:
+        acc, trial, status = tis.wire_fencing(ens, old, eng, start_cond=sc_tuple(case["sc"]))
+        ops = [to_int(s.order[0]) for s in trial.phasepoints]
+        res.update(acc=acc, status=status, ops=ops, trial=trial, same_obj=trial is old,
+                   line=f"ok {acc} {status} {trial.generated!r} | {lst(ops)}")
+        if acc:
+            res["cv"] = tis.calc_cv_vector(trial, [float(l), float(m), float(r)], ["sh", "sh", "wf"],
+                                           cap=None if case["cap"] is None else float(case["cap"]))
+    except Exception as e:  # noqa: BLE001
+        res.update(status=err_kind(e), line=err_kind(e), exc=True)
+    finally:
+        _AUDIT["on"] = False
+    after = snapshot(old)
+    res["frames_same"] = frames_only(after) == frames_only(before)
+    res["attr_changed"] = after != before and res["frames_same"]
+    with open(E["oldfile"], "rb") as f:
+        res["file_same"] = f.read() == bytes_before and not _AUDIT["events"]
+    return res
+
+
+def wf_judge(case, res):
+    bad = []
+    l, m, r = case["intf"]
+    sc = sc_tuple(case["sc"])
+    if res.get("exc"):
+        if res["status"] == "err:assert":
+            return bad                      # the move's own start assertion; nothing returned, nothing accepted
+        if not res["frames_same"] or not res["file_same"]:
+            bad.append(("C09:wf:old-path-mutated-on-reject", f"{res['status']}: old frames/files changed"))
+        return bad
+    acc, status, ops = res["acc"], res["status"], res["ops"]
+    if (acc is True) != (status == "ACC") or acc not in (True, False):
+        bad.append(("C09:wf:accept-status-mismatch", f"accept={acc!r} status={status!r}"))
+    if acc:
+        why = []
+        if len(ops) < 3:
+            why.append(f"{len(ops)} frames")
+        else:
+            if not ((ops[0] <= l and "L" in sc) or (ops[0] >= r and "R" in sc)):
+                why.append(f"starts at {ops[0]} (allowed {sc})")
+            if not (ops[-1] <= l or ops[-1] >= r):
+                why.append(f"ends inside at {ops[-1]}")
+            if not all(l <= x <= r for x in ops[1:-1]):
+                why.append("interior frame outside")
+            if not (min(ops) < m <= max(ops)) and not (l == m and min(ops) <= m <= max(ops)):
+                why.append(f"does not cross {m}")
+            if len(ops) > case["ML"]:
+                why.append(f"length {len(ops)} > maxlength {case['ML']}")
+            g = res["trial"].generated
+            if not (isinstance(g, tuple) and g[0] == "wf" and g[2] >= 1 and g[3] == len(ops)):
+                why.append(f"generated={g!r}")
+            # the weight that counts is the own-ensemble entry of calc_cv_vector (what run_md stores in
+            # path.weights); the `weight` attribute is written but never read anywhere (and is lost when
+            # subt_acceptance reverses the path)
+            if not res["cv"][1]:
+                why.append(f"zero weight in its own ensemble: cv={res['cv']}")
+        if why:
+            bad.append(("C09:wf:accepted-path-not-in-ensemble", "; ".join(why)))
+    else:
+        if not res["frames_same"]:
+            bad.append(("C09:wf:old-path-mutated-on-reject", f"status {status}: old frames changed"))
+        if not res["file_same"]:
+            bad.append(("C09:wf:old-files-touched-on-reject", f"status {status}"))
+    return bad
+
+
 # --------------------------------------------------------------------------- add_to_path tie
 def atp_cases(quick):
     lv = (-1, 0, 2, 4, 5)
@@ -766,8 +933,12 @@ def run(ctx):
                 w = info["weights"]
                 if set(c["sc"]) != {"L", "R"} and not (w is not None and len(w) == 3 and w[1] != 0):
                     ctx.fail("C09:run_md:zero-weight-in-own-ensemble", f"weights {w}", rep)
+        # ---- wire fencing: property predicates only
+        wf_block(ctx)
         ctx.exhaustive = False
         ctx.assumptions += [
+            "wire_fencing is not modelled in Lean (stretch goal not reached): its membership / rejection predicates are "
+            "only evaluated on seeded random runs with a lattice-walk engine",
             "order values are small integers (exact as floats)",
             "ξ values are restricted to floats for which int((L−2)/ξ) in float arithmetic equals the floor of the exact "
             "quotient (checked per value; boundary values (L−2)/n and both float neighbours are used when they pass)",
@@ -789,6 +960,14 @@ def replay(ctx, obj):
             got = real_atp(*r["atp"])
             print("code:", got, "recorded:", r.get("code"))
             return 1 if atp_bad(r["atp"], got) else 0
+        if "wfcase" in r:
+            res = run_real_wf(r["wfcase"])
+            bad = wf_judge(r["wfcase"], res)
+            print("wfcase:", r["wfcase"])
+            print("code:", res["line"])
+            for sig, what in bad:
+                print("FAILS:", sig, "-", what)
+            return 1 if bad else 0
         if "case" not in r:
             print("no failing input recorded (proof obligation / correspondence only):")
             print(obj)
